@@ -102,8 +102,27 @@ class Mutator:
             u = np.random.rand(self.n_particles, self.n_dim)
             x = np.array([self.prior_transform(u[i]) for i in range(self.n_particles)])
             logl, blobs = self.log_likelihood(x)
+            n_drawn = self.n_particles
+            # A batch without a single finite likelihood cannot be repaired by
+            # copying finite draws over the infinite ones: draw it again (the
+            # discarded draws still count towards the supported-fraction estimate
+            # and towards the number of likelihood calls).
+            n_redraws = 0
+            while np.all(np.isinf(logl)):
+                n_redraws += 1
+                if n_redraws > 1000:
+                    raise ValueError(
+                        "log-likelihood is infinite for every prior sample drawn; "
+                        "the likelihood has no support on the prior"
+                    )
+                u = np.random.rand(self.n_particles, self.n_dim)
+                x = np.array(
+                    [self.prior_transform(u[i]) for i in range(self.n_particles)]
+                )
+                logl, blobs = self.log_likelihood(x)
+                n_drawn += self.n_particles
             assignments = np.zeros(self.n_particles, dtype=int)
-            calls = self.state.get_current("calls") + self.n_particles
+            calls = self.state.get_current("calls") + n_drawn
 
             self.state.update_current(
                 {
@@ -121,7 +140,7 @@ class Mutator:
 
             # Resample prior particles with infinite likelihoods
             inf_logl_mask = np.isinf(logl)
-            if np.any(inf_logl_mask):
+            if np.any(inf_logl_mask) or n_drawn > self.n_particles:
                 all_idx = np.arange(len(x))
                 infinite_idx = all_idx[inf_logl_mask]
                 finite_idx = all_idx[~inf_logl_mask]
@@ -147,7 +166,7 @@ class Mutator:
                 # re-estimated from the history (which already contains the
                 # correction of earlier warm-up batches) at every iteration.
                 n_finite = len(finite_idx)
-                n_total = len(logl)
+                n_total = n_drawn
                 logz = np.log(n_finite / n_total)
                 self.state.set_current("logz", logz)
             return
